@@ -26,7 +26,8 @@ func propCases(prop string, g *Gen, n int) ([]*Case, []OracleFail) {
 		cases = append(cases, &Case{ID: fmt.Sprintf("%s-%d", prop, len(cases)), R: r, Refs: refs, Obs: obs})
 	}
 	switch prop {
-	case "SMOKE":
+	case "SMOKE", "SMOKEH":
+		g.Hostile = prop == "SMOKEH"
 		obs := names("nilness", "text", "shape", "root", "hints", "details", "flathints", "flatdetails", "links",
 			"keys", "domain", "tags", "flags", "codes", "os", "safedetails", "enc", "fmt-v", "fmt+v", "red-v", "red+v")
 		obs = append(obs, Obs{Name: "hop", Procs: [][]string{{}}, Sub: names("text", "shape", "enc", "fmt+v", "red+v", "safedetails")})
